@@ -208,6 +208,24 @@ def process(chk, descs, ex_cases):
         jobs.append(("export", k, {"steps": [{"op": "build", "id": "A", "desc": api},
                                              {"op": "export", "id": "A", "dir": str(edir), "backend": list(BACK[d["method"]]), "tag": ["export", k]},
                                              {"op": "cli_render", "dir": str(edir), "tag": ["export-render", k]}]}, None))
+    # several projects configured one after another in ONE process (a script or notebook driving the commands / the API):
+    # every project's configuration must be what it is when the project is configured alone
+    seq_steps = []
+    for k, d in enumerate(descs):
+        pdir = chk.scratch / f"seq{k}" / "proj"
+        pdir.mkdir(parents=True)
+        for i, (content, fmt) in enumerate(d["files"]):
+            (pdir / f"net{i}.{fmt}").write_text(content)
+        seq_steps.append({"op": "cli_init", "dir": str(pdir), "options": option_string(d, "proj")[0], "tag": ["seq-init", k]})
+    seq_exports = []
+    for k, d in enumerate(descs[:3]):
+        edir = chk.scratch / f"seqexport{k}" / "proj"
+        edir.parent.mkdir(parents=True)
+        seq_steps += [{"op": "build", "id": f"S{k}", "desc": dict(d)},
+                      {"op": "export", "id": f"S{k}", "dir": str(edir), "backend": list(BACK[d["method"]]), "tag": ["seq-export", k]}]
+        seq_exports.append(k)
+    if seq_steps:
+        jobs.append(("sequence", 0, {"steps": seq_steps}, None))
     # bundled examples through `example --dry`
     for case in ex_cases:
         jobs.append(("example", case, example_job(chk, case), None))
@@ -278,6 +296,31 @@ def process(chk, descs, ex_cases):
                 chk.violation({"kind": "export-rerender-raised"}, f"rendering the exported project raised {res_e[1]['error']}", input=show)
         if k < 3:
             chk.sample(show)
+    # the same projects configured one after another in one process
+    if ("sequence", 0) in by:
+        res_s, _ = by[("sequence", 0)]
+        if isinstance(res_s, dict):
+            chk.violation({"kind": "sequence-crash"}, "worker crashed while configuring several projects in one process",
+                          stderr=res_s.get("crash", "")[-600:])
+        else:
+            for item in res_s:
+                kind, k = item["tag"]
+                alone = by.get(("init" if kind == "seq-init" else "export", k), (None, None))[0]
+                if not isinstance(alone, list) or "error" in alone[0] or "error" in item:
+                    if isinstance(alone, list) and ("error" in alone[0]) != ("error" in item):
+                        chk.violation({"kind": "sequence-differs", "path": kind}, "a project is accepted alone but refused after others "
+                                      "were configured in the same process (or vice versa)", input={"project": k},
+                                      alone=alone[0].get("error"), in_sequence=item.get("error"))
+                    continue
+                chk.count((kind, k), nontrivial=True)
+                chk.hist["path:sequence"] += 1
+                a, b = toml_description(alone[0]["toml"]), toml_description(item["toml"])
+                badf = [f for f in a if a[f] != b[f]]
+                if badf:
+                    chk.violation({"kind": "sequence-differs", "path": kind, "fields": badf},
+                                  f"project {k} configured after other projects in the same process gets a different configuration "
+                                  f"file than when it is configured alone: {badf}", input={"project": k, "earlier_projects": list(range(k))},
+                                  alone={f: a[f] for f in badf}, in_sequence={f: b[f] for f in badf})
     for case in ex_cases:
         res, _ = by[("example", case)]
         chk.count(("example", case), nontrivial=True)
